@@ -406,3 +406,66 @@ def _l1(E):
     x = E.fresh("x")
     E.oblige("process-int", z3.Implies(z3.And(x >= 0, x < pow2(n)),
                                        z3.If(vbit(x, n - 1) == 1, x | (-pow2(n)), x) == sx(x, n)), kind="lemma")
+
+
+# --------------------------------------------------------------------------- IntAccessor and the 16-bit prefixes
+@pyproof("py:bp.IntAccessor", BP, "IntAccessor", ["C01", "C02", "C05"], MOD, must=["post:get", "post:set"])
+def _intacc(E, bp, vc):
+    """IntAccessor satisfies the abstract accessor contracts used by process_base_type (GetAccessor / SetAccessor 'uint')
+    for an indexer with field_number == 1"""
+    data, r, l, b = E.fresh("data"), E.fresh("r"), E.fresh("l"), E.fresh("b")
+    E.assume(z3.And(r >= 0, r <= 56, z3.URem(r, bv(8)) == 0, l >= 0, l <= 56, z3.URem(l, bv(8)) == 0, b >= 0, b <= 255,
+                    data >= 0, data < pow2(bv(64))))
+    a = bp.IntAccessor(data=SymInt(data))
+    di = bp.DataIndexer(field_number=1)
+    got = a.bp_get_byte(di, SymInt(r))
+    E.oblige("post:get", T(got) == ((data >> r) & 255))
+    a.bp_set_byte(di, SymInt(l), SymInt(b))
+    E.oblige("post:set", T(a.data) == (data | (b << l)))
+    E.oblige("post:default", bp.IntAccessor().data == 0)
+
+
+def _ahead(cls, attr, ctor):
+    @pyproof("py:bp.%s.encode_extensible_ahead" % cls, BP, "%s.encode_extensible_ahead" % cls,
+             ["C01", "C05"], MOD, must=["post:call"], calls=["process_base_type"])
+    def _enc(E, bp, vc):
+        """= process_base_type(16, ctx, DataIndexer(1), IntAccessor(<capacity | nbits>)): by that contract the 16 stream
+        bits at the cursor become low(value, 16), LSB first"""
+        rec = []
+        bp.process_base_type = lambda *a: rec.append(a)
+        val = E.fresh(attr)
+        E.assume(z3.And(val >= 0, val <= 65535))
+        obj = ctor(bp, SymInt(val))
+        ctx = bp.ProcessContext(True, None, S(E, "i"))
+        getattr(obj, "encode_extensible_ahead")(ctx)
+        if len(rec) == 1 and rec[0][1] is ctx and isinstance(rec[0][3], bp.IntAccessor):
+            n, _, di, acc = rec[0]
+            E.oblige("post:call", z3.And(T(n) == 16, T(di.field_number) == 1, z3.BoolVal(di.aistack == []),
+                                         T(acc.data) == val))
+        else:
+            E.oblige("post:call", False)
+
+    @pyproof("py:bp.%s.decode_extensible_ahead" % cls, BP, "%s.decode_extensible_ahead" % cls,
+             ["C02", "C05"], MOD, must=["post:result"], calls=["process_base_type"])
+    def _dec(E, bp, vc):
+        """returns the value process_base_type(16, ...) decodes into a fresh IntAccessor (data 0, field_number 1)"""
+        out = E.fresh("decoded")
+
+        def pbt(n, c, di, acc):
+            E.oblige("pre-of-callee:process_base_type", z3.And(T(n) == 16, T(di.field_number) == 1,
+                                                               z3.BoolVal(isinstance(acc, bp.IntAccessor)),
+                                                               T(acc.data) == 0), kind="pre-of-callee")
+            acc.data = SymInt(out)
+            c.i = c.i + 16
+        bp.process_base_type = pbt
+        obj = ctor(bp, 7)
+        i = S(E, "i")
+        E.assume(z3.And(i.t >= 0, i.t < (1 << 52)))
+        ctx = bp.ProcessContext(False, None, i)
+        r = getattr(obj, "decode_extensible_ahead")(ctx)
+        E.oblige("post:result", T(r) == out)
+        E.oblige("post:cursor", T(ctx.i) == i.t + 16)
+
+
+_ahead("Array", "capacity", lambda bp, v: bp.Array(True, v, None))
+_ahead("MessageProcessor", "nbits", lambda bp, v: bp.MessageProcessor(True, v, []))
